@@ -360,7 +360,8 @@ def _work(arg):
         small = [j for j in jobs if len(op_line(j)) < 400]
         random.Random("memcheck-%d" % seed).shuffle(small)
         jobs = small[:600 if tier == "quick" else 4000]
-        res = batchrun.run_ops(exe, [op_line(j) for j in jobs], batch=100, cpu=600, wrapper=batchrun.MEMCHECK)
+        res = batchrun.run_ops(exe, [op_line(j) for j in jobs], batch=100, cpu=90, wrapper=batchrun.MEMCHECK,
+                               max_bad=2, max_bad_batches=1)   # (a hanging operation must not cost an hour here)
         S.counters["operations-under-memcheck"] += len(jobs)
     else:
         res = batchrun.run_ops(exe, [op_line(j) for j in jobs])
@@ -395,7 +396,7 @@ def nchunks(tier):
 def run(tier, replay=None):
     import json
     run_ = verdict.Run(PROP, tier, LEVEL, replay_of=replay)
-    exe = build.build_exe("gasan", ["strdrv.cpp"])
+    exe = batchrun.strdrv("gasan")
     S = optrun.Summary()
     if replay:
         with open(replay) as fh:
@@ -416,14 +417,19 @@ def run(tier, replay=None):
         import shutil
         work = [(tier, run_.seed, c, n, exe) for c in range(n)]
         # every 4th chunk once more on the second compiler (clang ASan+UBSan)
-        casan = build.build_exe("casan", ["strdrv.cpp"])
+        casan = batchrun.strdrv("casan")
         work += [(tier, run_.seed, c, n, casan) for c in range(0, n, 4)]
         if shutil.which("valgrind"):
-            work.append((tier, run_.seed, -1, n, build.build_exe("plain", ["strdrv.cpp"])))
+            work.append((tier, run_.seed, -1, n, batchrun.strdrv("plain")))
         for part in optrun.pmap(_work, work):
             S.merge(part)
         # the same functions from 2-16 threads on thread-private arguments: serial results, no data race
         S.n += mtindep.phase(run_, "string", tier, S.counters)
+    if not replay and not batchrun.join_probe():
+        run_.violation("join:does-not-compile-for-input-iterators",
+                       "nitro::lang::join(first, last, infix) does not compile (or misbehaves) for std::list iterators "
+                       "and std::istream_iterator (harness/strdrv_join_probe.cpp); those operations are excluded from "
+                       "the run, the same elements go through vectors", {"probe": "strdrv_join_probe.cpp"})
     for key, what, case in S.viol:
         run_.violation(key, what, case)
     for r in S.inconc[:3]:
